@@ -19,21 +19,22 @@ VARIABLES l, bad, nontrivial
 
 vars == <<l, bad, nontrivial>>
 
-Obs(c) == <<c.obs.decision, c.obs.envoy, c.obs.envoy_split, c.obs.proxy>>
-Names == <<"decision", "envoy", "envoy_split", "proxy">>
+(* the entry points a case went through: decision, envoy (path with query), envoy_split, proxy and - for  *)
+(* plain http requests - a proxy that trusts nobody (proxy_untrusted)                                      *)
+E(c) == DOMAIN c.obs
 
 (* fields on which the entry points are compared; client addresses are out of scope (C09) *)
 Fields == <<"method", "scheme", "host", "path", "query", "captures", "headers", "cookies", "body">>
 
 Violations(c) ==
-  LET o == Obs(c) IN
-  (IF \E e \in 1..4 : o[e].positive # c.expect THEN {"decision-differs:" \o Names[CHOOSE e \in 1..4 : o[e].positive # c.expect]} ELSE {})
-  \cup UNION {{Names[e] \o ":" \o Fields[f] : f \in {y \in 1..Len(Fields) : o[e].view[Fields[y]] # c.canon[Fields[y]]}}
-              : e \in {x \in 1..4 : o[x].positive /\ c.expect}}
-  \cup (IF c.expect /\ \E e \in 1..4 : o[e].positive /\ o[e].up # c.canonup
-        THEN {"upstream-side-differs:" \o Names[CHOOSE e \in 1..4 : o[e].positive /\ o[e].up # c.canonup]} ELSE {})
-  \cup (IF ~c.expect /\ \E e \in 1..4 : o[e].status # c.status
-        THEN {"status-differs:" \o Names[CHOOSE e \in 1..4 : o[e].status # c.status]} ELSE {})
+  LET o == c.obs IN
+  (IF \E e \in E(c) : o[e].positive # c.expect THEN {"decision-differs:" \o (CHOOSE e \in E(c) : o[e].positive # c.expect)} ELSE {})
+  \cup UNION {{e \o ":" \o Fields[f] : f \in {y \in 1..Len(Fields) : o[e].view[Fields[y]] # c.canon[Fields[y]]}}
+              : e \in {x \in E(c) : o[x].positive /\ c.expect}}
+  \cup (IF c.expect /\ \E e \in E(c) : o[e].positive /\ o[e].up # c.canonup
+        THEN {"upstream-side-differs:" \o (CHOOSE e \in E(c) : o[e].positive /\ o[e].up # c.canonup)} ELSE {})
+  \cup (IF ~c.expect /\ \E e \in E(c) : o[e].status # c.status
+        THEN {"status-differs:" \o (CHOOSE e \in E(c) : o[e].status # c.status)} ELSE {})
 
 Init == l = 1 /\ bad = {} /\ nontrivial = 0
 
